@@ -28,6 +28,7 @@ class Prov:
         a local assigned on several match arms then denotes the value of the arm under consideration."""
         self.body = body
         self.transparent = transparent
+        self.only_blocks = only_blocks
         self.defs = {}       # local -> list of ("assign", rv) | ("call", term)
         self.pdefs = {}      # (local, proj-prefix) -> list of defs for partial writes
         self.mut_borrowed = set()
@@ -297,6 +298,18 @@ class Guard:
         self.line = line
 
 
+def _blocks_reaching(body, target):
+    preds = body.preds()
+    seen, work = {target}, [target]
+    while work:
+        x = work.pop()
+        for p in preds.get(x, []):
+            if p not in seen and not body.blocks[p].cleanup:
+                seen.add(p)
+                work.append(p)
+    return seen
+
+
 def guards(body, prov=None):
     prov = prov or Prov(body)
     out = []
@@ -315,6 +328,14 @@ def guards(body, prov=None):
             te, fe = (b.idx, tg[0][1]), (b.idx, t["otherwise"])
         else:
             continue
+        # a flag with a constant alternative (`a && b` kept in a bool): after jump threading the constant arm no longer
+        # reaches this branch, but the flow-insensitive trace still lists its store - read the condition again from the
+        # blocks that can actually run before it
+        if term[0] == "phi" and any(x[0] == "const" for x in term[1]) and prov.only_blocks is None:
+            anc = _blocks_reaching(body, b.idx)
+            t2 = Prov(body, transparent=prov.transparent, only_blocks=anc).operand(t["discr"])
+            if t2[0] != "phi" or len(t2[1]) < len(term[1]):
+                term = t2
         # normalise negations
         while term[0] == "un" and term[1] == "Not":
             term = term[2]
